@@ -130,21 +130,39 @@ def merge_guards(ctx, rule="C03.merge-guards"):
                 ctx.ob(rule, f.site, False, "merge writes into the parameter list of an operand", role="no-store-into-operand",
                        line=n.lineno)
         if is_gate:
-            # sign depends on comparison of daggers
-            cmpd = [n for n in cfg.nodes if n.kind == "if" and isinstance(n.ast, ast.Compare) and
-                    {ast.unparse(n.ast.left), ast.unparse(n.ast.comparators[0])} == {"self.dagger", f"{other}.dagger"}]
-            ok = False
-            if cmpd:
-                h = cmpd[0]
-                eq = isinstance(h.ast.ops[0], ast.Eq)
-                for n in walk_no_nested(f.node):
-                    if isinstance(n, ast.Assign) and isinstance(n.value, ast.UnaryOp) and isinstance(n.value.op, ast.USub) \
-                            and f"{other}.p[0]" in ast.unparse(n.value):
-                        conds = cfg.branch_conditions(cfg.find(n)[0])
-                        if (h.id, FALSE if eq else TRUE) in conds:
-                            ok = True
-            ctx.ob(rule, f.site, ok, "" if ok else "the parameter of the second gate is not negated exactly when the two "
-                   "dagger flags differ", role="dagger-sign", line=f.node.lineno)
+            # sign law by finite case split: for each (self.dagger, other.dagger) the effective parameter
+            # sign(dagger) * p[0] of the result equals the sum of the effective parameters of the operands
+            from ..signeval import Interp, Lin, Obj, PList, Rest, Returned, Raised, Unknown, sgn
+            for d1 in (False, True):
+                for d2 in (False, True):
+                    me = Obj("self", {"dagger": d1, "p": PList(Lin({"a": 1}), Rest("rest"))})
+                    ot = Obj("other", {"dagger": d2, "p": PList(Lin({"b": 1}), Rest("rest"))})
+                    it = Interp({f.pos_params[0]: me, other: ot})
+                    role = f"sign-law:self.dagger={d1},other.dagger={d2}"
+                    try:
+                        it.run(f.node.body)
+                        ctx.na(rule, f.site, f"{role}: no return reached")
+                        continue
+                    except Returned as r:
+                        res = r.v
+                    except Raised:
+                        ctx.ob(rule, f.site, False, "merge of two gates of one family with equal remaining parameters "
+                               "raises", role=role, line=f.node.lineno)
+                        continue
+                    except Unknown as e:
+                        ctx.na(rule, f.site, f"{role}: construct not modelled by the sign evaluator ({e})")
+                        continue
+                    if not isinstance(res, Obj) or not isinstance(res.attrs.get("p"), PList):
+                        ctx.na(rule, f.site, f"{role}: result not an operation copy")
+                        continue
+                    p0 = res.attrs["p"].first
+                    rd_ = res.attrs.get("dagger")
+                    ok = isinstance(p0, Lin) and isinstance(rd_, bool) and \
+                        p0 * sgn(rd_) == Lin({"a": sgn(d1), "b": sgn(d2)})
+                    ctx.ob(rule, f.site, ok, "" if ok else
+                           f"with self.dagger={d1}, other.dagger={d2} the merged gate has dagger={rd_} and p[0]={getattr(p0, 'd', p0)}"
+                           f": its effective parameter is not ({sgn(d1):+d})*a + ({sgn(d2):+d})*b, i.e. not the composition",
+                           role=role, line=f.node.lineno)
             # identity only when the sum is exactly zero
             zero = [n for n in cfg.nodes if n.kind == "if" and isinstance(n.ast, ast.Compare) and
                     isinstance(n.ast.comparators[0], ast.Constant) and n.ast.comparators[0].value == 0
@@ -183,6 +201,30 @@ def wire_uniqueness(ctx, rule="C03.wire-uniqueness"):
     ctx.ob(rule, f.site, ns, "" if ns else "multi-mode operations reach the merge", role="guard:ns", line=merges[0].lineno)
     ctx.ob(rule, f.site, same, "" if same else "operations on different registers reach the merge", role="guard:same-reg",
            line=merges[0].lineno)
+    # documented convention: self.merge(other) returns other * self, so the receiver is the EARLIER command
+    mc = merges[0]
+    rd = rd_of(f.node)
+    def wire_pos(e):
+        # q[i] -> 0, q[i + 1] -> 1 for the operand expression e (= <name>.op)
+        if not (isinstance(e, ast.Attribute) and e.attr == "op" and isinstance(e.value, ast.Name)):
+            return None
+        out = set()
+        for d in rd.reaching(e.value.id, mid):
+            v = d.value
+            if d.kind == "assign" and isinstance(v, ast.Subscript):
+                t = ast.unparse(v.slice).replace(" ", "")
+                out.add(0 if t == "i" else 1 if t in ("i+1", "1+i") else None)
+            else:
+                out.add(None)
+        return out.pop() if len(out) == 1 else None
+    pr, pa = wire_pos(mc.func.value), wire_pos(mc.args[0]) if mc.args else None
+    if pr is None or pa is None:
+        ctx.na(rule, f.site, "operands of the merge call not recognised as q[i] / q[i + 1]")
+    else:
+        ok = (pr, pa) == (0, 1)
+        ctx.ob(rule, f.site, ok, "" if ok else "the later command is the receiver of merge(): order-sensitive merges "
+               "(Preparation.merge returns `other`, Decomposition.merge returns U2 @ U1) keep / compose the wrong way round",
+               role="merge-order", line=mc.lineno)
     # the merged command acts on the register of the merged pair and replaces exactly the pair
     ins = [n for n in walk_no_nested(f.node) if isinstance(n, ast.Call) and dotted(n.func) == "Command"]
     ok = bool(ins) and all(len(c.args) == 2 and (dotted(c.args[1]) or "").endswith(".reg") for c in ins)
